@@ -659,6 +659,26 @@ def grid_cases():
                    'via': 'var' if n % 3 == 0 else 'inline', 'sp': 'none'}
 
 
+def array_function_cases():
+    """arrays whose members are sequences, empty or arrays, against function(xs:integer) as R: the members (not their
+    flattened items) have to match R; maps against function(K) as R"""
+    one, zero = ['a', 'integer', '1'], ['a', 'integer', '0']
+    s_abc = ['a', 'string', "'abc'"]
+    arrays = [['r', [[one, zero]]], ['r', [[]]], ['r', [[one], [one, zero]]], ['r', [[['r', [[s_abc]]]]]],
+              ['r', [[['r', [[one]]]], [one]]], ['r', [[one], [zero]]], ['r', []]]
+    maps = [['m', [[s_abc, [one, zero]]]], ['m', [[s_abc, [one]], [['a', 'string', "'b'"], [s_abc]]]], ['m', []]]
+    rets = [A('integer'), A('integer', '?'), A('integer', '*'), A('integer', '+'), A('string'), A('string', '*'),
+            ST_ITEM_STAR, M.seq(['item']), M.seq(['array', None]), M.seq(['array', A('string')]), M.seq(['array', A('integer')], '*')]
+    n = 0
+    for val, params in [(a, [A('integer')]) for a in arrays] + [(a, [A('long')]) for a in arrays[:3]] + \
+            [(m, [A('anyAtomicType')]) for m in maps] + [(m, [A('string')]) for m in maps]:
+        for ret in rets:
+            n += 1
+            st = ['seq', ['function', params, ret], '']
+            yield {'ver': '3.1', 'v': [val], 't': st, 'text': M.render(st, PREFIXES, M.no_space, False),
+                   'via': 'var' if n % 2 else 'inline', 'sp': 'none'}
+
+
 def fixed_subtype_cases():
     fsize = ['f', [M.seq(['map', None])], A('integer'), 'map:size#1']
     one = ['a', 'integer', '1']
@@ -1130,6 +1150,25 @@ def classify(judgement, judge, spec, items, st, dec, model, depth=0):
             key = function_test_key(pre, x, it2, d1)
             if key:
                 return key
+            if x[1] is not None and len(x[1]) == len(it2[1]):
+                # the subtype relation judges every component correctly: the function item's own comparison of
+                # its signature with the test is at fault; name where the two signatures differ
+                d = sorted(differing_roles(['seq', ['function', x[1], x[2]], ''], ['seq', it2, '']))
+                if d:
+                    return pre + 'item/function(typed)/signature-vs-test/%s/differs-at:%s' % (
+                        direction(d1), ','.join(d[:3]))
+        if it2[0] == 'function' and it2[1] is not None and x[0] in ('m', 'r'):
+            # maps and arrays are functions: which code judges them against a typed function test depends on
+            # the value (map entries / array members that are single items / members that are sequences or arrays)
+            if x[0] == 'm':
+                vk = 'map-value'
+            elif not x[1]:
+                vk = 'array-value/empty'
+            elif all(len(mb) == 1 and mb[0][0] != 'r' for mb in x[1]):
+                vk = 'array-value/single-item-members'
+            else:
+                vk = 'array-value/sequence-or-array-member'
+            return pre + 'item/function(typed)/%s/%s' % (vk, direction(d1))
         cross = ''
         if d1 is True and TARGET_KIND.get(it2[0], item_kind(x)) != item_kind(x):
             cross = '/cross-kind'
@@ -1798,6 +1837,9 @@ def run(h):
     for c in (grid[h.shard::h.nshards] if h.nshards > 1 else grid):
         h.case('judge', c)
     h.extra['grid_cases'] = len(grid)
+    if h.shard == 0:
+        for c in array_function_cases():
+            h.case('judge', c)
     for _ in range(h.n(9000)):
         h.case('judge', g_judge(r))
     for c in fixed_subtype_cases():
